@@ -19,6 +19,7 @@ RULE = (
     "node other than the start or fails at a component other than the first; distinct_nontrivial counts cases containing such a path."
     " Also: names that are ints or str subclasses with their own __str__; resolvers built with keywords, positionally, with only non-default options and by a subclass configuring itself after the base constructor; paths with more components than the interpreter's recursion limit (zig-zag on two nodes; chains that deep)."
     " Also: unreprable nodes (relaxed misses), tuple names, foreign-separator priming, trees mixing separators, first components glued to the root's name."
+    ' Rounds 11-14: enum/bytes/dot-only names, separator-containing names, str-subclass paths, wide parents with renames, dotted path attributes, SymlinkNodes in trees.'
 )
 ASSUMPTIONS = [
     "names never contain a character of the class separator and are never '', '.', '..' (not addressable by construction)",
